@@ -5,7 +5,8 @@
                                     optional / required, PrematureEOF, TokenRequired)
      pybtex/bibtex/interpreter.py:35-175 (Integer / String / QuotedVar / Identifier /
                                     FunctionLiteral, compared structurally: class + value)
-   Mirrors /repo HEAD (with fix 135237f: a missing argument group is a syntax error), quirks
+   Mirrors /repo HEAD (with fixes 135237f: a missing argument group is a syntax error, and
+   6970deb: line breaks inside a token are counted), quirks
    included.  No proofs here.
 
    The scanner object (text, pos, lineno) is modelled by the pair (remaining text, lineno):
@@ -177,8 +178,10 @@ Fixpoint first_match (ps : list pat) (s : str) : option (pat * str * str) :=
     end
   end.
 
-(* scanner.py:96-109 get_token: eat whitespace; at the end EOFError / PrematureEOF; else the first
-   pattern of the list that matches at pos, or None (the position stays after the whitespace) *)
+(* scanner.py:96-112 get_token: eat whitespace; at the end EOFError / PrematureEOF; else the first
+   pattern of the list that matches at pos, or None (the position stays after the whitespace).
+   After fix 6970deb the line breaks inside the matched token advance the line counter too (a .bst
+   string literal may run over a line end); BstParser always has an integer lineno. *)
 Definition state := (str * Z)%type.
 Definition get_token (ps : list pat) (allow_eof : bool) (s : str) (ln : Z)
   : res (option (pat * str) * state) :=
@@ -187,7 +190,7 @@ Definition get_token (ps : list pat) (allow_eof : bool) (s : str) (ln : Z)
   | [] => if allow_eof then PyErr cls_eof ln' else PyErr cls_premature ln'
   | _ :: _ =>
     match first_match ps r with
-    | Some (p, v, r') => Ok (Some (p, v), (r', ln'))
+    | Some (p, v, r') => Ok (Some (p, v), (r', Z.add ln' (nl_count v)))   (* fix 6970deb: update_lineno(value) *)
     | None => Ok (None, (r, ln'))
     end
   end.
